@@ -9,6 +9,7 @@ type Chan[T any] struct {
 	closed bool
 }
 
+//go:norace
 func NewChan[T any](n int) *Chan[T] {
 	if n <= 0 {
 		// rendezvous channels do not occur in go-redisemu; model them as 1-slot buffers would be
@@ -18,12 +19,17 @@ func NewChan[T any](n int) *Chan[T] {
 	return &Chan[T]{capN: n}
 }
 
+//go:norace
 func (c *Chan[T]) Len() int { if c == nil { return 0 }; return len(c.buf) }
+//go:norace
 func (c *Chan[T]) Cap() int { if c == nil { return 0 }; return c.capN }
 
+//go:norace
 func (c *Chan[T]) sendReady() bool { return c != nil && (c.closed || len(c.buf) < c.capN) }
+//go:norace
 func (c *Chan[T]) recvReady() bool { return c != nil && (c.closed || len(c.buf) > 0) }
 
+//go:norace
 func (c *Chan[T]) doSend(v T) {
 	if c.closed {
 		panic("send on closed channel")
@@ -32,6 +38,7 @@ func (c *Chan[T]) doSend(v T) {
 	RaceRelease(c)
 }
 
+//go:norace
 func (c *Chan[T]) doRecv() (v T, ok bool) {
 	if len(c.buf) > 0 {
 		v = c.buf[0]
@@ -43,8 +50,10 @@ func (c *Chan[T]) doRecv() (v T, ok bool) {
 	return v, false
 }
 
+//go:norace
 func torndown() bool { return Cur != nil && Cur.teardown }
 
+//go:norace
 func Send[T any](c *Chan[T], v T) {
 	Point(OpSend, c, c.sendReady)
 	if torndown() {
@@ -53,6 +62,7 @@ func Send[T any](c *Chan[T], v T) {
 	c.doSend(v)
 }
 
+//go:norace
 func Recv[T any](c *Chan[T]) T {
 	Point(OpRecv, c, c.recvReady)
 	if torndown() {
@@ -63,6 +73,7 @@ func Recv[T any](c *Chan[T]) T {
 	return v
 }
 
+//go:norace
 func Recv2[T any](c *Chan[T]) (T, bool) {
 	Point(OpRecv, c, c.recvReady)
 	if torndown() {
@@ -73,6 +84,7 @@ func Recv2[T any](c *Chan[T]) (T, bool) {
 }
 
 // TrySend is a non-blocking send used by timers.
+//go:norace
 func TrySend[T any](c *Chan[T], v T) bool {
 	if c == nil || c.closed || len(c.buf) >= c.capN {
 		return false
@@ -81,6 +93,7 @@ func TrySend[T any](c *Chan[T], v T) bool {
 	return true
 }
 
+//go:norace
 func Close[T any](c *Chan[T]) {
 	Point(OpSend, c, nil)
 	if torndown() {
@@ -114,8 +127,10 @@ type recvLike interface {
 	recvAny() (any, bool)
 }
 
+//go:norace
 func (c *Chan[T]) recvAny() (any, bool) { v, ok := c.doRecv(); return v, ok }
 
+//go:norace
 func CaseRecv(ch any) Case {
 	switch c := ch.(type) {
 	case recvLike:
@@ -132,6 +147,7 @@ func CaseRecv(ch any) Case {
 
 // real channels (only lane.Done()) are polled: their readiness only changes through steps of
 // scheduled threads, so polling is deterministic.
+//go:norace
 func realCase(c <-chan struct{}) Case {
 	return Case{
 		ready: func() bool {
@@ -156,10 +172,12 @@ func realCase(c <-chan struct{}) Case {
 	}
 }
 
+//go:norace
 func CaseSend[T any](c *Chan[T], v T) Case {
 	return Case{ready: c.sendReady, do: func() (any, bool) { c.doSend(v); return nil, true }}
 }
 
+//go:norace
 func Select(hasDefault bool, cases ...Case) *Sel {
 	anyReady := func() bool {
 		if hasDefault {
@@ -194,11 +212,13 @@ func Select(hasDefault bool, cases ...Case) *Sel {
 	return &Sel{I: i, val: v, ok: ok}
 }
 
+//go:norace
 func Got[T any](c *Chan[T], s *Sel) T {
 	v, _ := s.val.(T)
 	return v
 }
 
+//go:norace
 func Got2[T any](c *Chan[T], s *Sel) (T, bool) {
 	v, _ := s.val.(T)
 	return v, s.ok
